@@ -70,6 +70,12 @@ def flatten(c):
     return c
 
 
+def flatten_plain(c):
+    m = c.pop('main')
+    c.update(m)
+    return c
+
+
 def valid(case):
     eol = case.get('eol', '\n')
     if eol not in EOLS:
